@@ -27,6 +27,7 @@ type LabelExec struct {
 	AllocLabels []uint64
 	MutIDs      []uint64
 	Repositioned bool // an administrator moved the label counter (set-nextlabel)
+	NoSettle     bool // issue mutations without waiting for background work (C14 idle clause)
 	labelCtr    uint64
 	Skipped     int
 }
@@ -36,6 +37,22 @@ func NewLabelExec(w *drv.World, prop string) *LabelExec {
 }
 
 func (x *LabelExec) uuid(v int) string { return x.D.Nodes[v].UUID }
+
+// post issues a mutation; with NoSettle the request returns as soon as it is answered and
+// background goroutines stay wherever the scheduler left them.
+func (x *LabelExec) post(url string, body []byte) (int, []byte, error) {
+	if !x.NoSettle {
+		return x.W.HTTP("POST", url, body)
+	}
+	res, err := x.W.Batch([]proto.Req{{Client: "c1", Kind: "http", Method: "POST", URL: url, Body: body}}, "return")
+	if err != nil {
+		return 0, nil, err
+	}
+	if res.Wedged {
+		return 0, nil, x.W.ClassifyWedge("POST "+url, res.Stacks)
+	}
+	return res.Resps[0].Status, res.Resps[0].Body, nil
+}
 func (x *LabelExec) base(v int) string { return "/api/node/" + x.uuid(v) + "/" + x.Inst }
 
 func (x *LabelExec) viol(oracle, sig, detail string) *drv.Violation {
@@ -279,7 +296,7 @@ func (x *LabelExec) Apply(op drv.Op) (handled bool, v *drv.Violation, err error)
 		if op.Op == "mutate" {
 			url += "?mutate=true"
 		}
-		st, body, e := w.HTTP("POST", url, u64sToBytes(data))
+		st, body, e := x.post(url, u64sToBytes(data))
 		if e != nil {
 			return true, nil, e
 		}
@@ -301,7 +318,7 @@ func (x *LabelExec) Apply(op drv.Op) (handled bool, v *drv.Violation, err error)
 			k = 3
 		}
 		sel := bodies[:k]
-		st, body, e := w.HTTP("POST", x.base(op.V)+"/merge", jsonU64s(sel))
+		st, body, e := x.post(x.base(op.V)+"/merge", jsonU64s(sel))
 		if e != nil {
 			return true, nil, e
 		}
@@ -336,7 +353,7 @@ func (x *LabelExec) Apply(op drv.Op) (handled bool, v *drv.Violation, err error)
 		r.Shuffle(len(svs), func(i, j int) { svs[i], svs[j] = svs[j], svs[i] })
 		k := 1 + r.IntN(len(svs)-1)
 		sel := svs[:k]
-		st, body, e := w.HTTP("POST", fmt.Sprintf("%s/cleave/%d", x.base(op.V), b), jsonU64s(sel))
+		st, body, e := x.post(fmt.Sprintf("%s/cleave/%d", x.base(op.V), b), jsonU64s(sel))
 		if e != nil {
 			return true, nil, e
 		}
@@ -451,7 +468,7 @@ func (x *LabelExec) Apply(op drv.Op) (handled bool, v *drv.Violation, err error)
 			}
 		}
 		runs := RunsOf(posted)
-		st, body, e := w.HTTP("POST", fmt.Sprintf("%s/split-supervoxel/%d", x.base(op.V), sv), EncodeRLEs(runs))
+		st, body, e := x.post(fmt.Sprintf("%s/split-supervoxel/%d", x.base(op.V), sv), EncodeRLEs(runs))
 		if e != nil {
 			return true, nil, e
 		}
@@ -496,7 +513,7 @@ func (x *LabelExec) Apply(op drv.Op) (handled bool, v *drv.Violation, err error)
 		}
 		old := pick(r, bodies)
 		nl := x.M.MaxEver + 100 + uint64(r.IntN(50))
-		st, body, e := w.HTTP("POST", x.base(op.V)+"/renumber", jsonU64s([]uint64{nl, old}))
+		st, body, e := x.post(x.base(op.V)+"/renumber", jsonU64s([]uint64{nl, old}))
 		if e != nil {
 			return true, nil, e
 		}
@@ -511,7 +528,7 @@ func (x *LabelExec) Apply(op drv.Op) (handled bool, v *drv.Violation, err error)
 		return true, nil, nil
 	case "nextlabel":
 		n := 1 + int(op.N%3)
-		st, body, e := w.HTTP("POST", fmt.Sprintf("%s/nextlabel/%d", x.base(op.V), n), nil)
+		st, body, e := x.post(fmt.Sprintf("%s/nextlabel/%d", x.base(op.V), n), nil)
 		if e != nil {
 			return true, nil, e
 		}
